@@ -454,7 +454,7 @@ func genWrCases(c *Ctx) []json.RawMessage {
 }
 
 func checkC05(c *Ctx) {
-	c.rule = "MC: every behaviour of WriterImpl within the cfg bounds keeps the stitching invariants (windows tile, every region in its own window, regions contiguous in order) and the C05 contract, and is a behaviour of the integer core for each tracked region (RefinesCore). APALACHE: the core's invariants (the tracked region lies in the stitch window of its own buffer, offsets are the running sum, WrittenLen = pending, sticky errors) are inductive for regions, buffers and histories of any size and length. TRACE: one case = (writer flavour, initial target shape or failing sink write k, history of Malloc/WriteBinary/Flush with eager/lazy/re-filled regions); exhaustive histories <= 3 ops over a boundary-valued alphabet (+final Flush) and seeded random histories; sink bytes are projected onto per-region pattern runs and judged by TLC against WriterAbs; hook state is judged against WriterImpl. Sinks: plain io.Writers and sinks whose dynamic type also is a net.Conn offering WriteString / ReadFrom / WriteByte / Flush / Sync / Available / Len (every route recorded in arrival order)."
+	c.rule = "MC: every behaviour of WriterImpl within the cfg bounds keeps the stitching invariants (windows tile, every region in its own window, regions contiguous in order) and the C05 contract, and is a behaviour of the integer core for each tracked region (RefinesCore). APALACHE: the core's invariants (the tracked region lies in the stitch window of its own buffer, offsets are the running sum, WrittenLen = pending, sticky errors) are inductive for regions, buffers and histories of any size and length. TRACE: one case = (writer flavour, initial target shape or failing sink write k, history of Malloc/WriteBinary/Flush with eager/lazy/re-filled regions); exhaustive histories <= 3 ops over a boundary-valued alphabet (+final Flush) and seeded random histories; sink bytes are projected onto per-region pattern runs and judged by TLC against WriterAbs; hook state is judged against WriterImpl. Sinks: plain io.Writers and sinks whose dynamic type also is a net.Conn offering WriteString / ReadFrom / WriteByte / Flush / Sync / Available / Len (every route recorded in arrival order). One flush cycle of 288 MiB outgrows buffers of 64, 128 and 256 MiB with regions handed out early and filled last."
 	if c.Thorough() {
 		c.MC("MC_BufWriter.tla", "MC_BufWriter_thorough.cfg", 12)
 	} else {
